@@ -791,21 +791,10 @@ func (e *onsRun) deliver(o onsOp, tx []byte, height int64) TxResult {
 		feeP = big.NewInt(100000000)
 	}
 	minFee := e.w.State.Governance.FeeOption.MinFee().Amount.BigInt()
-	var tree []string
-	for k := range e.committed {
-		if strings.HasPrefix(k, "d_") {
-			tree = append(tree, k)
-		}
-	}
-	sort.Strings(tree)
-	var tnames []string
-	for _, k := range tree {
-		tnames = append(tnames, reverseStr(k[2:]))
-	}
 	addrs := e.addrSet(o, pre)
 	preNames := pre.names()
-	in := fmt.Sprintf("ons %d %d %s %s %s %s %s %s %s %s OLT OLT,VT,BTC,ETH,TTC %s T %d %s ", height, version, pre.Base, pre.PerB, strings.Join(pre.Tlds, ","),
-		feeP, minFee, feeObs, hex.EncodeToString(e.w.Accts[o.Signer].Addr), b01(!o.BadSig), e.opTokens(o), len(tnames), strings.Join(tnames, " ")) +
+	in := fmt.Sprintf("ons %d %d %s %s %s %s %s %s %s %s OLT OLT,VT,BTC,ETH,TTC %s ", height, version, pre.Base, pre.PerB, strings.Join(pre.Tlds, ","),
+		feeP, minFee, feeObs, hex.EncodeToString(e.w.Accts[o.Signer].Addr), b01(!o.BadSig), e.opTokens(o)) +
 		stateTokens(preNames, pre, addrs)
 	in = strings.Join(strings.Fields(in), " ")
 	var postNames []string
